@@ -85,10 +85,42 @@ def report(rep, case, d, driver):
                   orc is not None, tags)
 
 
+def big_batch_probe(rep, rng):
+    """one add() of several thousand candidates: every one of them is judged against the archive as it was BEFORE the call, however
+    many rows the batch has -- rows late in the batch that coincide with rows early in the batch are as novel as those were"""
+    import numpy as np
+    from ribs.archives import ProximityArchive
+    for lc in (False, True):
+        a = ProximityArchive(solution_dim=1, measure_dim=2, k_neighbors=2, novelty_threshold=1.0, local_competition=lc, dtype=np.float64)
+        a.add(np.zeros((2, 1)), [0.0, 0.0], [[0.0, 0.0], [0.5, 0.0]])
+        n = 4096 + rng.randint(200, 900)
+        pts = np.array([[10.0 + 3.0 * (i % 70), 10.0 + 3.0 * (i // 70)] for i in range(n)])
+        dup = rng.sample(range(4100, n), 20)
+        for j, d in enumerate(dup):
+            pts[d] = pts[j * 7]                      # a late row repeats an early row of the same batch
+        before = a.compute_novelty(pts)
+        info = a.add(np.arange(n, dtype=float)[:, None], np.arange(n, dtype=float), pts)
+        rep.count("big_batch_probes")
+        bad = None
+        if not np.array_equal(np.asarray(info["novelty"], dtype=np.float64), np.asarray(before, dtype=np.float64)):
+            k = int(np.flatnonzero(np.asarray(info["novelty"]) != np.asarray(before))[0])
+            bad = "row %d reports novelty %r, compute_novelty on the pre-call archive gave %r" % (k, float(info["novelty"][k]), float(before[k]))
+        elif not np.all(np.asarray(info["status"]) == 2) or len(a) != 2 + n:
+            k = int(np.flatnonzero(np.asarray(info["status"]) != 2)[0]) if not np.all(np.asarray(info["status"]) == 2) else -1
+            bad = "%d candidates, all farther than the threshold from the two stored entries: status[%d] = %s, the archive holds %d entries (expected %d)" % (
+                n, k, None if k < 0 else int(info["status"][k]), len(a), 2 + n)
+        if bad:
+            rep.violation("ProximityArchive.add of %d candidates in one call (local_competition=%s): %s" % (n, lc, bad),
+                          {"kind": "property", "broken": "novelty is judged against the archive before the call", "rows": n, "local_competition": lc,
+                           "duplicated_rows": [[int(d), int(j * 7)] for j, d in enumerate(dup)]}, True, {"kind": "big-batch"})
+            return
+
+
 def check(rep, tier, seed, driver):
     import kd_scan
     kd_scan.report(rep)
     py2v_prox.report(rep)
+    big_batch_probe(rep, random.Random(seed + 9))
     rng = random.Random(seed)
     n = 600 if tier == "quick" else 2000
     rep.rule = ("random ProximityArchive configurations (k 1..8, thresholds incl. 0, initial_capacity 1..128, float32/float64, with/without "
